@@ -53,6 +53,9 @@ ARRQ = "arrq"          # arr Q
 ARRM = "arrm"          # arr bool, a NaN / 0 mask (true = NaN)
 ARRBOOL = "arrbool"    # arr bool, a boolean array
 ARR4 = "arr4"          # arr4 Z
+NONEM = "nonem"        # xr.DataArray(): no array (None : option (arr bool))
+OPTM = "optm"          # option (arr bool)
+COORDS = "coords"      # np.arange(...): coordinates of an xarray wrapper, never used as data
 
 
 def coq_name(n):
@@ -66,6 +69,9 @@ class Fn:
         self.datasets = {}     # python name of a dataset -> coq text of its array (type in env under key ("ds", name))
         self.band_param = None
         self.params = set()
+        self.dsrec = {}        # python name of a dataset parameter given as a record (NpArr.dataset) -> coq name
+        self.msk = {}          # python name of such a dataset -> coq name of its msk array, where it is known to exist
+        self.mask_mode = False  # np.zeros(...) builds a NaN / 0 mask
 
     def where(self, node):
         return f"{self.fname}:{self.line0 + getattr(node, 'lineno', 1) - 1}"
@@ -88,6 +94,13 @@ class Fn:
             if isinstance(s.value, ast.Name) and s.value.id in self.datasets and isinstance(s.slice, ast.Constant) \
                     and s.slice.value == "im":
                 return s.value.id
+        return None
+
+    def ds_msk(self, e):
+        """`P["msk"]` for a dataset record P whose msk is known to exist -> coq text of the msk array, else None"""
+        if isinstance(e, ast.Subscript) and isinstance(e.value, ast.Name) and e.value.id in self.msk \
+                and isinstance(e.slice, ast.Constant) and e.slice.value == "msk":
+            return self.msk[e.value.id]
         return None
 
     def lookup(self, node, name):
@@ -125,6 +138,11 @@ class Fn:
             ds = self.ds_im_data(e)
             if ds is not None:
                 return self.datasets[ds], ARRZ
+            m = self.ds_msk(e.value) if e.attr in ("data", "shape") else None
+            if m is not None and e.attr == "data":
+                return m, ARRZ
+            if m is not None and e.attr == "shape":
+                return None, ("tuple", [(f"(a_nr {m})", INT), (f"(a_nc {m})", INT)])
             if e.attr == "strides":
                 txt, t = self.expr(e.value)
                 if t not in (ARRZ, ARRM):
@@ -250,7 +268,15 @@ class Fn:
         if isinstance(v, ast.Attribute) and v.attr == "sizes" and isinstance(v.value, ast.Name) \
                 and v.value.id in self.datasets and isinstance(e.slice, ast.Constant) and e.slice.value in ("row", "col"):
             return f"({'a_nr' if e.slice.value == 'row' else 'a_nc'} {self.datasets[v.value.id]})", INT
-        # P["msk"].data handled by the caller (masks); np.r_[a, b] / np.c_[a, b]
+        if isinstance(v, ast.Attribute) and isinstance(v.value, ast.Name) and v.value.id in self.dsrec \
+                and isinstance(e.slice, ast.Constant):
+            rec = self.dsrec[v.value.id]
+            if v.attr == "sizes" and e.slice.value in ("row", "col"):
+                return f"({'a_nr' if e.slice.value == 'row' else 'a_nc'} (d_im {rec}))", INT
+            if v.attr == "attrs" and e.slice.value in ("valid_pixels", "no_data_mask"):
+                return f"(d_{e.slice.value} {rec})", INT
+            fail(w, f"dataset access not supported: {ast.unparse(e)}")
+        # np.r_[a, b] / np.c_[a, b]
         if self.is_np(v, "r_", "c_"):
             if not (isinstance(e.slice, ast.Tuple) and len(e.slice.elts) == 2):
                 fail(w, f"np.r_ / np.c_ with other than two operands: {ast.unparse(e)}")
@@ -316,6 +342,10 @@ class Fn:
             if not (isinstance(t, tuple) and len(t[1]) == 2 and all(x[1] == INT for x in t[1])):
                 fail(w, f"np.zeros of something else than a pair of integers: {ast.unparse(c)}")
             typ = ARRZ
+            if self.mask_mode:
+                if "dtype" in kws:
+                    fail(w, "np.zeros with a dtype where a NaN / 0 mask is built")
+                return f"(np_zeros_mask {t[1][0][0]} {t[1][1][0]})", ARRM
             if "dtype" in kws:
                 d = kws["dtype"]
                 if (isinstance(d, ast.Constant) and d.value == "uint32") or self.is_np(d, "uint32"):
@@ -339,15 +369,52 @@ class Fn:
             a, t = self.expr(c.args[0])
             _, tsh = self.expr(c.args[1])
             _, tst = self.expr(c.args[2])
-            if t != ARRZ or not (isinstance(tsh, tuple) and isinstance(tst, tuple)):
+            if t not in (ARRZ, ARRM) or not (isinstance(tsh, tuple) and isinstance(tst, tuple)):
                 fail(w, f"as_strided operands not understood: {ast.unparse(c)}")
             sh, st = tsh[1], tst[1]
+            if t == ARRM and len(sh) == 3 and len(st) == 3 and all(x[1] == INT for x in sh) and not kws:
+                for x in st:
+                    if not (isinstance(x[1], tuple) and x[1][0] == STRIDE and x[1][1] == a):
+                        fail(w, f"as_strided: a stride that is not a stride of the base array {a}: {ast.unparse(c)}")
+                return None, ("view3", a, [x[0] for x in sh], [x[0] for x in st])
             if len(sh) != 4 or len(st) != 4 or any(x[1] != INT for x in sh):
                 fail(w, f"as_strided: a 4-D view with integer dimensions is expected: {ast.unparse(c)}")
             for x in st:
                 if not (isinstance(x[1], tuple) and x[1][0] == STRIDE and x[1][1] == a):
                     fail(w, f"as_strided: a stride that is not a stride of the base array {a}: {ast.unparse(c)}")
+            if t != ARRZ:
+                fail(w, f"4-D as_strided view of a {t}")
             return (f"(np_as_strided4 {a} {' '.join(x[0] for x in sh)} {' '.join(x[0] for x in st)})"), ARR4
+        if self.is_np(f, "sum") and len(c.args) == 2 and not c.keywords:
+            _, t = self.expr(c.args[0])
+            ax = c.args[1]
+            if isinstance(t, tuple) and t[0] == "view3" and isinstance(ax, ast.Constant) and ax.value == 2 \
+                    and not isinstance(ax.value, bool):
+                return f"(np_sum_strided3_nan {t[1]} {' '.join(t[2])} {' '.join(t[3])})", ARRM
+            fail(w, f"np.sum of something else than a 3-D as_strided view of a mask over its last axis: {ast.unparse(c)}")
+        if self.is_np(f, "arange"):
+            return None, COORDS
+        if isinstance(f, ast.Name) and f.id == "binary_dilation" and self.mask_mode:
+            kws = self.kw(c, {"structure", "iterations"})
+            st = kws.get("structure")
+            if len(c.args) != 1 or st is None or "iterations" not in kws or not (
+                    isinstance(st, ast.Call) and self.is_np(st.func, "ones") and len(st.args) == 1 and not st.keywords):
+                fail(w, f"binary_dilation without (array, structure=np.ones((a, b)), iterations=n): {ast.unparse(c)}")
+            a, t = self.expr(c.args[0])
+            _, tsh = self.expr(st.args[0])
+            if t != ARRBOOL or not (isinstance(tsh, tuple) and tsh[0] == "tuple" and len(tsh[1]) == 2
+                                    and all(x[1] == INT for x in tsh[1])):
+                fail(w, f"binary_dilation operands not understood: {ast.unparse(c)}")
+            return f"(np_binary_dilation {a} {tsh[1][0][0]} {tsh[1][1][0]} {self.int_expr(kws['iterations'])})", ARRBOOL
+        if isinstance(f, ast.Attribute) and f.attr == "DataArray" and isinstance(f.value, ast.Name) and f.value.id == "xr":
+            kws = self.kw(c, {"coords", "dims"})
+            if not c.args and not kws:
+                return "None", NONEM
+            if len(c.args) == 1 and "dims" in kws and ast.unparse(kws["dims"]) == "['row', 'col']":
+                a, t = self.expr(c.args[0])
+                if t == ARRM:
+                    return a, t
+            fail(w, f"xr.DataArray of something else than (mask, coords=..., dims=['row', 'col']): {ast.unparse(c)}")
         # X.astype(np.uint32) / X.astype("uint32")
         if isinstance(f, ast.Attribute) and f.attr == "astype" and len(c.args) == 1 and not c.keywords:
             d = c.args[0]
@@ -429,7 +496,7 @@ class Fn:
         if isinstance(t, tuple) and t[0] == "tuple":
             self.env[name] = (None, t)           # python-level tuple: inlined where it is used
             return
-        if isinstance(t, tuple) and t[0] == STRIDE:
+        if (isinstance(t, tuple) and t[0] in (STRIDE, "view3")) or t in (COORDS, NONEM):
             self.env[name] = (txt, t)
             return
         if isinstance(t, tuple) and t[0] == "dataset":
@@ -445,6 +512,9 @@ class Fn:
     def stmt(self, s, lets, ind):
         pad = "  " * ind
         if isinstance(s, ast.Expr) and isinstance(s.value, ast.Constant) and isinstance(s.value.value, str):
+            return
+        if isinstance(s, ast.If) and self.mask_mode:
+            self.mask_if(s, lets, ind)
             return
         if isinstance(s, ast.If):
             s = self.band_if(s)
@@ -501,6 +571,72 @@ class Fn:
             self.for_loop(s, lets, ind)
             return
         fail(self.where(s), f"statement shape not supported: {ast.unparse(s)[:120]}")
+
+    def top_names(self, stmts):
+        out = []
+        for x in stmts:
+            if isinstance(x, ast.Assign) and len(x.targets) == 1:
+                tg = x.targets[0]
+                for n in (tg.elts if isinstance(tg, ast.Tuple) else [tg]):
+                    if isinstance(n, ast.Name) and n.id not in out:
+                        out.append(n.id)
+        return out
+
+    def branch(self, stmts, name, ind, want):
+        saved = dict(self.env)
+        lets = []
+        for b in stmts:
+            self.stmt(b, lets, ind)
+        txt, t = self.env.get(name, (None, None))
+        self.env = saved
+        if t != want:
+            fail(self.where(stmts[0]), f"the branch leaves {name} as a {t}, a {want} is expected")
+        return lets, txt
+
+    def mask_if(self, s, lets, ind):
+        """`if "msk" in P.data_vars: ... else: ...` (one array defined by both branches) and `if <integer test>: ...`
+        (one optional array, None before, defined by the branch)"""
+        pad = "  " * ind
+        t = s.test
+        if isinstance(t, ast.Compare) and len(t.ops) == 1 and isinstance(t.ops[0], ast.In) \
+                and isinstance(t.left, ast.Constant) and t.left.value == "msk":
+            d = t.comparators[0]
+            if not (isinstance(d, ast.Attribute) and d.attr == "data_vars" and isinstance(d.value, ast.Name)
+                    and d.value.id in self.dsrec) or not s.orelse:
+                fail(self.where(s), f"test not supported: {ast.unparse(t)}")
+            ds = d.value.id
+            common = [n for n in self.top_names(s.body) if n in self.top_names(s.orelse)]
+            if len(common) != 1:
+                fail(self.where(s), f"the two branches of `if 'msk' in {ds}.data_vars` define {common}, one array is expected")
+            name = common[0]
+            mv = f"{self.dsrec[ds]}_msk"
+            self.msk[ds] = mv
+            l1, x1 = self.branch(s.body, name, ind + 2, ARRM)
+            del self.msk[ds]
+            l2, x2 = self.branch(s.orelse, name, ind + 2, ARRM)
+            cn = coq_name(name)
+            lets.append(f"{pad}let {cn} := match d_msk {self.dsrec[ds]} with")
+            lets.append(f"{pad}  | Some {mv} =>")
+            lets.extend(l1 + [f"{pad}    {x1}"])
+            lets.append(f"{pad}  | None =>")
+            lets.extend(l2 + [f"{pad}    {x2}"])
+            lets.append(f"{pad}  end in")
+            self.env[name] = (cn, ARRM)
+            return
+        if isinstance(t, ast.Compare) and len(t.ops) == 1 and isinstance(t.ops[0], (ast.NotEq, ast.Eq)) and not s.orelse:
+            a, b = self.int_expr(t.left), self.int_expr(t.comparators[0])
+            tst = f"({a} =? {b})" if isinstance(t.ops[0], ast.Eq) else f"(negb ({a} =? {b}))"
+            outer = [n for n in self.top_names(s.body) if n in self.env]
+            if len(outer) != 1 or self.env[outer[0]][1] != NONEM:
+                fail(self.where(s), f"`if {ast.unparse(t)}` redefines {outer}: one array that is xr.DataArray() before is expected")
+            name = outer[0]
+            l1, x1 = self.branch(s.body, name, ind + 1, ARRM)
+            cn = coq_name(name)
+            lets.append(f"{pad}let {cn} := if {tst} then")
+            lets.extend(l1 + [f"{pad}  Some {x1}", f"{pad}else None in"])
+            self.env[name] = (cn, OPTM)
+            return
+        fail(self.where(s), f"`if` not supported here: {ast.unparse(t)}")
 
     def for_loop(self, s, lets, ind):
         pad = "  " * ind
@@ -706,6 +842,79 @@ def main():
                "   the rational model) *)\n"
                f"Definition compute_std_raster_var ({fn.datasets[args[0]]} : arr Z) ({coq_name(args[1])} : Z) : arr Q :=\n{body}\n")
     sources.append(srcinfo)
+
+    # ---------------------------------------------------------------- masks_dilatation
+    import scipy.ndimage  # pylint: disable=import-outside-toplevel
+    from pandora.matching_cost import matching_cost as mc  # pylint: disable=import-outside-toplevel
+    AMC = mc.AbstractMatchingCost
+    if mc.binary_dilation is not scipy.ndimage.binary_dilation:
+        fail(mc.__file__, "matching_cost.binary_dilation is not scipy.ndimage.binary_dilation")
+    f, l0, n, src, node, args, defaults = get_plain(AMC.__dict__.get("masks_dilatation"), "masks_dilatation", mc.__file__,
+                                                    allow_static=True)
+    if not isinstance(AMC.__dict__.get("masks_dilatation"), staticmethod) or len(args) != 4 or defaults:
+        fail(f"{f}:{l0}", f"masks_dilatation: expected a staticmethod (left, right, window_size, subp), got {args}")
+    fn = Fn(f, l0, node)
+    fn.params = set(args)
+    fn.mask_mode = True
+    fn.dsrec = {args[0]: coq_name(args[0]), args[1]: coq_name(args[1])}
+    fn.env[args[2]] = (coq_name(args[2]), INT)
+    fn.env[args[3]] = (coq_name(args[3]), INT)
+
+    def ret_masks(s):
+        v = s.value
+        if not (isinstance(v, ast.Tuple) and len(v.elts) == 2 and isinstance(v.elts[1], ast.List) and len(v.elts[1].elts) == 2):
+            fail(fn.where(s), f"masks_dilatation does not return (left, [right, right_shift]): {ast.unparse(s)}")
+        (a, ta), (b, tb), (c_, tc) = fn.expr(v.elts[0]), fn.expr(v.elts[1].elts[0]), fn.expr(v.elts[1].elts[1])
+        if (ta, tb, tc) != (ARRM, ARRM, OPTM):
+            fail(fn.where(s), f"masks_dilatation returns ({ta}, [{tb}, {tc}])")
+        return f"({a}, ({b}, {c_}))."
+    body = fn.body(node.body, 1, ret_masks)
+    pm = [coq_name(a) for a in args]
+    out.append(f"(* AbstractMatchingCost.masks_dilatation({', '.join(args)}): the masks are NaN / 0 arrays, here booleans\n"
+               "   (true = NaN); the third one exists only when subp != 1 *)\n"
+               f"Definition masks_dilatation ({pm[0]} {pm[1]} : dataset) ({pm[2]} {pm[3]} : Z)\n"
+               f"  : arr bool * (arr bool * option (arr bool)) :=\n{body}\n")
+    sources.append((f, f"lines {l0}-{l0 + n - 1} (masks_dilatation)", sha1_of(src)))
+
+    # ---------------------------------------------------------------- the call of masks_dilatation in cv_masked
+    f, l0, n, src, node, args, defaults = get_plain(AMC.__dict__.get("cv_masked"), "cv_masked", mc.__file__)
+    if args[:3] != ["self", "img_left", "img_right"] or defaults:
+        fail(f"{f}:{l0}", f"cv_masked: unexpected signature {args}")
+    calls = [x for x in ast.walk(node) if isinstance(x, ast.Call) and isinstance(x.func, ast.Attribute)
+             and x.func.attr == "masks_dilatation"]
+    if len(calls) != 1 or ast.unparse(calls[0].func) != "self.masks_dilatation" or calls[0].keywords or len(calls[0].args) != 4:
+        fail(f"{f}:{l0}", "cv_masked: expected exactly one call self.masks_dilatation(a, b, c, d)")
+    call = calls[0]
+    top = [x for x in node.body if isinstance(x, ast.Assign) and x.value is call]
+    if len(top) != 1 or not (isinstance(top[0].targets[0], ast.Tuple) and len(top[0].targets[0].elts) == 2):
+        fail(f"{f}:{l0 + call.lineno - 1}", "cv_masked: the masks are not bound by a top-level `a, b = self.masks_dilatation(...)`")
+    fn = Fn(f, l0, node)
+    fn.env["img_left"] = ("img_left", "dataset_rec")
+    fn.env["img_right"] = ("img_right", "dataset_rec")
+    cargs = []
+    for i, x in enumerate(call.args):
+        if i < 2:
+            if not (isinstance(x, ast.Name) and x.id in ("img_left", "img_right")):
+                fail(fn.where(x), f"masks_dilatation is called on something else than the two images: {ast.unparse(x)}")
+            cargs.append(x.id)
+        else:
+            # an integer expression of self._window_size / self._subpix
+            class Sub(ast.NodeTransformer):
+                def visit_Attribute(self, nd):  # pylint: disable=invalid-name
+                    if ast.unparse(nd) == "self._window_size":
+                        return ast.copy_location(ast.Name(id="self_window_size", ctx=ast.Load()), nd)
+                    if ast.unparse(nd) == "self._subpix":
+                        return ast.copy_location(ast.Name(id="self_subpix", ctx=ast.Load()), nd)
+                    return nd
+            fn.env["self_window_size"] = ("self_window_size", INT)
+            fn.env["self_subpix"] = ("self_subpix", INT)
+            cargs.append(fn.int_expr(Sub().visit(x)))
+    out.append("(* AbstractMatchingCost.cv_masked: `mask_left, mask_right = self.masks_dilatation(...)`; self_window_size =\n"
+               "   self._window_size, self_subpix = self._subpix *)\n"
+               "Definition cv_masked_masks (img_left img_right : dataset) (self_window_size self_subpix : Z)\n"
+               "  : arr bool * (arr bool * option (arr bool)) :=\n"
+               f"  masks_dilatation {' '.join(cargs)}.\n")
+    sources.append((f, f"lines {l0}-{l0 + n - 1} (cv_masked)", sha1_of(src)))
 
     text = ("From Coq Require Import ZArith Bool QArith.\nFrom Pandora Require Import Model.PyArith Lib.NpArr.\n"
             "Open Scope Z_scope.\n\n" + "\n".join(out))
